@@ -737,6 +737,28 @@ class TransactionBuilder:
             else:
                 self._outputs += changes
 
+        def _calc_changes():
+            changes = self._calc_change(
+                self.fee,
+                self.inputs,
+                self.outputs,
+                change_address,
+                precise_fee=True,
+                respect_min_utxo=change_output_index is None,
+            )
+            if change_output_index is not None and len(changes) != 1:
+                # The change is split over several outputs, so nothing is merged: these are new
+                # outputs of their own and each of them needs its minimum ADA.
+                changes = self._calc_change(
+                    self.fee,
+                    self.inputs,
+                    self.outputs,
+                    change_address,
+                    precise_fee=True,
+                    respect_min_utxo=True,
+                )
+            return changes
+
         if change_address:
             if merge_change:
                 for idx, output in enumerate(original_outputs):
@@ -747,16 +769,7 @@ class TransactionBuilder:
 
             # Set fee to max
             self.fee = self._estimate_fee()
-            changes = self._calc_change(
-                self.fee,
-                self.inputs,
-                self.outputs,
-                change_address,
-                precise_fee=True,
-                respect_min_utxo=change_output_index is None,
-            )
-
-            _merge_changes(changes)
+            _merge_changes(_calc_changes())
 
         # With changes included, we can estimate the fee more precisely
         self.fee = self._estimate_fee()
@@ -767,16 +780,7 @@ class TransactionBuilder:
             # Re-estimate until the fee covers the transaction it is part of.
             while True:
                 self._outputs = deepcopy(original_outputs)
-                changes = self._calc_change(
-                    self.fee,
-                    self.inputs,
-                    self.outputs,
-                    change_address,
-                    precise_fee=True,
-                    respect_min_utxo=change_output_index is None,
-                )
-
-                _merge_changes(changes)
+                _merge_changes(_calc_changes())
 
                 final_fee = self._estimate_fee()
                 if final_fee <= self.fee:
